@@ -672,3 +672,34 @@ package rapid
 //@   at f.WriteString#1 assert [C16] fsRenamed == old(fsRenamed)
 //@   loop 0 invariant [C16] !fsClosed && fsRenamed == old(fsRenamed) && fsTmpDir == dir && -1 <= rangeindex && rangeindex < len(out)
 //@   loop 1 invariant [C16] !fsClosed && fsRenamed == old(fsRenamed) && fsTmpDir == dir && -1 <= rangeindex && rangeindex < len(buf)
+
+//@ func sameError
+//@   trusted "a real failure's traceback is never the literal '<no error>' text, so an error never equals 'no error'"
+//@   ensures implies(result, (err1 == nil) == (err2 == nil))
+//@ func traceback
+//@ func errorString
+
+//@ func kindaSafeFilename
+//@   modifies runesWritten
+//@   loop 1 invariant [C06,C16] -1 <= rangeindex && rangeindex < len(windowsReservedNames)
+
+//@ func shrink
+//@   trusted "placeholder until the shrinker contracts below are in place"
+//@   requires prop != nil && err != nil
+//@   ensures result1 != nil
+//@   modifies heap, drawn, lockmode, cancelled
+
+//@ func doCheck
+//@   noframe "runs the property"
+//@   requires [C09] 0 <= checks && checks <= math.MaxInt/10
+//@   requires [C17] prop != nil && !tbFailed && !searched
+//@   ensures [C06,C17] implies(searched, result4 == "")
+//@   ensures [C06] implies(result4 != "", result0 == 0 && result1 == 0 && !result2 && result3 == 0 && (result6 != nil || result7 != nil))
+//@   ensures [C07] implies(searched && (result6 != nil || result7 != nil), result3 == lastInit)
+//@   ensures [C09] implies(result6 == nil && result7 == nil, searched && result3 == 0 && result4 == "")
+//@   ensures [C02,C17] tbFailed == old(tbFailed) && tbErrors == old(tbErrors)
+//@   modifies heap, drawn, runs, lastInit, searched, lockmode, cancelled
+//@   at findBug#0 assert [C17] seed == old(seed) && checks == old(checks) && !tbFailed
+//@   at findBug#0 set searched = true
+//@   at newRandomBitStream#0 assert [C07] arg0 == lastInit && arg1
+//@   loop 0 invariant [C17] seed == old(seed) && checks == old(checks) && tbFailed == old(tbFailed) && tbErrors == old(tbErrors) && !searched && -1 <= rangeindex && rangeindex < len(failfiles)
